@@ -216,7 +216,7 @@ PROPS = {
     },
     "C07": {
         "modules": ["contracts.c07_listing", "contracts.c08_names", "contracts.worker_units", "contracts.c09_client"],
-        "unit_filter": ["lemma:ls-date-round-trip(build_list_mtime;parse_ls_date)", "BaseClient.parse_mlsx_line", "Server.build_mlsx_string", "lemma:first-space-splits-facts-from-name", "list_worker@list", "mlsd_worker@mlsd", "Client.list.<locals>.AsyncLister.__anext__", "Client.list.<locals>.AsyncLister._new_stream", "Client.stat"],
+        "unit_filter": ["lemma:ls-date-round-trip(build_list_mtime;parse_ls_date)", "BaseClient.parse_mlsx_line", "Server.build_mlsx_string", "lemma:first-space-splits-facts-from-name", "list_worker@list", "mlsd_worker@mlsd", "Client.list.<locals>.AsyncLister.__anext__", "Client.list.<locals>.AsyncLister._new_stream", "Client.stat", "Client.stat#any-listing"],
         "extra": ["contracts.index.c07_rt"],
         "level": "proof",
         "trusted_base": [T_PY, T_ENGINE, T_SOLVER, "T-time: proleptic Gregorian calendar; strftime/strptime inverse on the printed fields for the formats of the tree; years 1970..2200", "T-str"],
